@@ -350,6 +350,36 @@ def check_subdistribution(ctx):
     ctx.check(bool(reads), R4, fi.key + ":source", "probabilities are read from self.distribution_dict[key]", "the projection does not read the receiver's probabilities by key", fi)
 
 
+def check_nll_domain(ctx):
+    """NLL(target | model) = -sum_x target(x) log max(eps, model(x)) ranges over every outcome the *target* gives weight to
+    (outcomes only the model has contribute 0). Summing over the model's outcomes only drops target(x) log(eps) for every
+    target outcome the model misses -- exactly the terms that keep the value above the target's entropy."""
+    repo = ctx.repo
+    f = repo.func("distributions.clipped_negative_log_likelihood:compute_clipped_negative_log_likelihood")
+    ctx.analysed(f)
+    ps = positional_params(f.node)
+    tgt, meas = ps[0], ps[1]
+    d = Defs(f.node)
+    doms = []
+    for n in body_walk(f.node):
+        it = None
+        if isinstance(n, ast.For) and any(isinstance(c, ast.Call) and (dotted(c.func) or "").split(".")[-1] in ("log", "log2", "log10") for c in ast.walk(n)):
+            it = n.iter
+        elif isinstance(n, (ast.GeneratorExp, ast.ListComp)) and any(isinstance(c, ast.Call) and (dotted(c.func) or "").split(".")[-1] in ("log", "log2", "log10") for c in ast.walk(n.elt)):
+            it = n.generators[0].iter
+        if it is not None:
+            doms.append(it)
+    if not doms:
+        ctx.undecided(R2, f.key + ":domain", "cannot find the summation containing the logarithm", f)
+        return
+    for it in doms:
+        atoms = d.atoms(it) | {norm(it)}
+        txt = " ".join(sorted(atoms))
+        has_t = tgt in txt
+        has_m = meas in txt
+        ctx.check(has_t, "C17-D3n nll-domain", f.key + ":domain", "the sum ranges over the target's outcomes (or the union of both supports)", f"the log-likelihood is summed over `{short(it)}`, which does not include the target distribution's outcomes: target outcomes the model gives no entry contribute nothing instead of target(x)*log(eps), so the value can fall below the target's entropy", f"{f.module.relpath}:{getattr(it, 'lineno', f.node.lineno)}")
+
+
 def check_key_notation(ctx):
     """The saved key of an outcome is text; writer and reader must agree on *how the notation of one key is chosen*.
     If the writer may choose the notation key by key (separator depending on the key), the reader has to recognise it key by
@@ -416,6 +446,8 @@ def run(ctx):
     check_pair(ctx, R5, "outcome-distribution", f"{MOD}:save_measurement_outcome_distribution", f"{MOD}:load_measurement_outcome_distribution", None, allow_unwritten=legacy)
     check_pair(ctx, R5, "outcome-distributions", f"{MOD}:save_measurement_outcome_distributions", f"{MOD}:load_measurement_outcome_distributions", None, allow_unwritten=legacy)
     check_key_notation(ctx)
+    check_nll_domain(ctx)
+    ctx.floor("C17-D3n", 1)
     ctx.floor("C17-D1", 12)
     ctx.floor("C17-D2", 14)
     ctx.floor("C17-D3", 1)
